@@ -3,6 +3,8 @@ import KrakenModel.Model.BlobStore
 import KrakenModel.Proof.BlobStore
 import KrakenModel.Proof.C07
 import KrakenModel.Proof.C08
+import KrakenModel.Proof.C08Lru
+import KrakenModel.Proof.C08Cells
 /-
   C08  The memory blob store behaves like its model, and stale handles fail cleanly.
 
@@ -19,9 +21,9 @@ open KrakenModel KrakenModel.BlobStore
 
 /-- **(1) same LRU model as the disk store.** After every interleaving of store calls, handle calls
 and single evictions: reserved size = sum of live blob sizes ≤ capacity; the eviction queue is
-duplicate-free and is exactly the complete blobs that are not banned. (The per-operation theorems
-of Spec/C07 — eviction of a minimal queue prefix, LRU order, scopes, metadata — are about the same
-functions.) -/
+duplicate-free and is exactly the complete blobs that are not banned. (LRU order along these
+interleavings: `queue_is_lru_m` below. The per-operation theorems of Spec/C07 — eviction of a minimal
+queue prefix, scopes, metadata — are statements about the same functions in an arbitrary state.) -/
 theorem mem_store_is_lru_model (cap : Nat) (hcap : cap < U64) (acts : List MAct) :
     let s := ((msys cap).run acts).st
     s.size = s.blobs.total ∧ s.size ≤ s.cap ∧ s.queue.Nodup ∧
@@ -29,17 +31,79 @@ theorem mem_store_is_lru_model (cap : Nat) (hcap : cap < U64) (acts : List MAct)
   let hg := (mgood_run hcap acts).good
   ⟨hg.sum, hg.le, hg.qnodup, hg.qmem⟩
 
+/-- **(1') LRU order along every interleaving.** `(mtrun cap acts).lastUse k` is the index of the last
+action that used `k` — store calls use blobs as in C07 (`usedKey`: successful `Open`, completing
+`MarkComplete`, ban-lifting `UnbanEviction`), single evictions and handle calls use none; `mtrun` only
+adds this ghost field to the run of `msys`. After every interleaving the eviction queue is strictly
+ordered by last use, least recently used first. -/
+theorem queue_is_lru_m (cap : Nat) (hcap : cap < U64) (acts : List MAct) :
+    let t := mtrun cap acts
+    t.m = (msys cap).run acts ∧ t.m.st.queue.Pairwise (fun a b => t.lastUse a < t.lastUse b) :=
+  ⟨mtrun_m cap acts, (lru_mrun hcap acts).1.1⟩
+
+/-! ### the mechanism: the slice cell and its lock (`Model.MemCells`)
+
+The theorems (2)–(6) below are about `Model.BlobStore`, where a handle call is one atomic step and a
+ghost incarnation number tells the slice of one `Create` from the next: (2), (3) and (5) hold in every
+state by the definition of `hBlob`.  What they rest on in the Go code is that all handles of an
+incarnation and its blob share one `*[]byte` cell, that the store nils the cell under the blob's
+`sliceMu`, and that a handle call reads and writes the cell's header under the same lock.  The next
+three theorems are about that protocol itself, with the calls taken apart into their steps, any number
+of threads and every interleaving — and no incarnation numbers. -/
+
+/-- **The lock keeps a nil-ed slice nil.** Once the store has executed `*b.data = nil`, the cell is nil
+after every further interleaving of steps of writers, readers and further nil-ings: no `Write` /
+`WriteAt` that read the header earlier writes it back later. -/
+theorem niled_cell_stays_nil (n : Nat) (data : Bytes) (acts : List MemCells.CAct) :
+    let s := MemCells.crun true (MemCells.cinit n data) acts
+    s.niled = true → s.cell = none :=
+  fun h => (MemCells.cinv_run n data acts).dead h
+
+/-- … hence every call that looks at the cell after that answers `ErrEvicted`: a reader or a writer
+that reads the header of a nil-ed cell records the evicted result (and a writer goes straight to its
+unlock without a header write). -/
+theorem stale_call_answers_evicted (n : Nat) (data : Bytes) (acts : List MemCells.CAct) (i : Nat) :
+    let s := MemCells.crun true (MemCells.cinit n data) acts
+    s.niled = true →
+    (s.pcs[i]? = some .rHeld → (MemCells.cstep true s (.step i)).results.head? = some (i, .evicted)) ∧
+    (∀ p off, s.pcs[i]? = some (.wHeld p off) →
+      (MemCells.cstep true s (.step i)).results.head? = some (i, .evicted) ∧
+      (MemCells.cstep true s (.step i)).cell = none) := by
+  intro s hn
+  have hc : s.cell = none := (MemCells.cinv_run n data acts).dead hn
+  refine ⟨?_, ?_⟩
+  · intro hp
+    simp [MemCells.cstep, hp, hc, MemCells.setPc]
+  · intro p off hp
+    simp [MemCells.cstep, hp, hc, MemCells.setPc]
+
+/-- **Without the lock the protocol is wrong**: the same steps with the lock steps doing nothing let a
+writer that read the header before the nil-ing write it back afterwards — the evicted slice is alive
+again (what the seeded change of the audit did to `WriteAt`). -/
+theorem without_the_lock_a_stale_write_revives :
+    let s := MemCells.crun false (MemCells.cinit 2 [1])
+      [.startWrite 0 [2] 1, .step 0, .step 0,      -- writer: (no) lock, header read
+       .startNil 1, .step 1, .step 1,               -- store: (no) lock, `*b.data = nil`
+       .step 0]                                     -- writer: header write
+    s.niled = true ∧ s.cell = some [1, 2] := by decide
+
+-- the same schedule with the lock: the store waits, the write lands first, the cell ends up nil
+example : (MemCells.crun true (MemCells.cinit 2 [1])
+    [.startWrite 0 [2] 1, .step 0, .step 0, .startNil 1, .step 1, .step 1, .step 0, .step 0, .step 1, .step 1, .step 1]).cell = none := by
+  decide
+
 /-- **(2) a stale handle fails cleanly.** If the incarnation of a handle is gone (`hBlob = none`:
 evicted, deleted, or the key re-created since), every operation through it reports the evicted
 result, returns no bytes, and changes neither the store nor the handle. (`Read`/`ReadAt` of zero
-bytes and negative offsets are rejected before the blob is looked at, as in the Go code.) -/
+bytes, negative offsets and a `WriteAt` whose end does not fit an `int` are answered before the blob
+is looked at, as in the Go code: listed in the assumptions of the property.) -/
 theorem stale_handle_fails (s : State) (h : Handle) (hd : hBlob s h = none) :
     (∀ n, n ≠ 0 → hRead s h n = (h, .evicted)) ∧
     (∀ n off, n ≠ 0 → 0 ≤ off → hReadAt s h n off = .evicted) ∧
     (∀ off w, hSeek s h off w = (h, .evicted)) ∧
     hSize s h = .minus1 ∧
     (∀ p, hWrite s h p = (s, h, .evicted)) ∧
-    (∀ p off, 0 ≤ off → hWriteAt s h p off = (s, .evicted)) := by
+    (∀ p off, 0 ≤ off → off.toNat + p.length ≤ maxInt → hWriteAt s h p off = (s, .evicted)) := by
   refine ⟨?_, ?_, ?_, ?_, ?_, ?_⟩
   · intro n hn; simp [hRead, hn, hd]
   · intro n off hn ho
@@ -48,9 +112,29 @@ theorem stale_handle_fails (s : State) (h : Handle) (hd : hBlob s h = none) :
   · intro off w; simp [hSeek, hd]
   · simp [hSize, hd]
   · intro p; simp [hWrite, hd]
-  · intro p off ho
-    have : ¬ off < 0 := by omega
+  · intro p off ho hmax
+    have : ¬ (off < 0 ∨ off.toNat + p.length > maxInt) := by omega
     simp [hWriteAt, this, hd]
+
+/-- **`WriteAt` near the largest offset.** Before the repair a non-empty `WriteAt` at an offset whose
+end does not fit an `int` panicked (on a live handle: the slice expression `buf[off:]` after the
+wrapped-around `end` suppressed the resize) — for every blob and every such offset; the repaired
+`WriteAt` (`hWriteAt`) refuses the offset and changes nothing. -/
+theorem legacy_writeAt_panics_near_maxInt (data : Bytes) (off plen : Nat) (hp : 0 < plen) (hl : plen ≤ maxInt)
+    (ho : off ≤ maxInt) (hend : off + plen > maxInt) (hlen : data.length < off) :
+    legacyWriteAtPanics data off plen = true := by
+  have h1 : (off + plen) % 18446744073709551616 = off + plen := Nat.mod_eq_of_lt (by unfold maxInt at *; omega)
+  have h2 : ¬ (off + plen < 9223372036854775808) := by unfold maxInt at *; omega
+  simp only [legacyWriteAtPanics, toInt64, h1, h2, if_false, Bool.and_eq_true, decide_eq_true_eq]
+  refine ⟨?_, hlen⟩
+  unfold maxInt at *
+  omega
+
+theorem writeAt_refuses_offsets_beyond_int (s : State) (h : Handle) (p : Bytes) (off : Int)
+    (hend : off.toNat + p.length > maxInt) : hWriteAt s h p off = (s, .invalid) := by
+  simp [hWriteAt, hend]
+
+example : legacyWriteAtPanics [] 9223372036854775807 1 = true := by decide
 
 /-- **(3) removal makes handles stale.** A handle is stale as soon as its key has no entry: after a
 successful `Delete`, … -/
